@@ -92,6 +92,9 @@ def cases(tier, seed):
     for i in range(24 if tier == 'quick' else 600):
         cs.append(dict(kind='multistep', cls=['AdamsBashforthExplicit1Step', 'BackwardEuler', 'AdamsMoultonImplicit1Step', 'AdamsMoultonImplicit2Step'][i % 4], n=int(rng.integers(1, 5)), cplx=bool(rng.random() < 0.3),
                        nsteps=int(rng.integers(1, 9)), dtexp=float(rng.uniform(-2.5, -0.5)), t0=float(rng.uniform(-2, 5)), seed=int(rng.integers(0, 2**31)), forcing=bool(rng.random() < 0.7), _cost=4))
+    for i in range(20 if tier == 'quick' else 600):
+        cs.append(dict(kind='boris', M=int(rng.integers(2, 6)), qt=['LOBATTO', 'RADAU-RIGHT'][i % 2], nt=['LEGENDRE', 'LEGENDRE', 'EQUID', 'CHEBY-2'][int(rng.integers(0, 4))], dtexp=float(rng.uniform(-1.5, -0.3)),
+                       nsweeps=int(rng.integers(8, 16)), seed=int(rng.integers(0, 2**31)), _cost=10))
     alphas = [0.3, 1e-1, 1e-2, 1e-3, 1e-4, 1e-6, 1e-8]
     for i in range(60 if tier == 'quick' else 1200):
         cs.append(dict(kind='paradiag', M=int(rng.integers(1, 6)), n=int(rng.integers(1, 5)), L=int(rng.integers(1, 13)), alpha=float(alphas[int(rng.integers(0, len(alphas)))]),
@@ -495,6 +498,87 @@ def run_verlet(case, r):
     r.sample = dict(case={k: v for k, v in case.items() if not k.startswith('_')})
 
 
+def run_boris(case, r):
+    """Boris-SDC (second-order sweeper with the Boris trick) on the ideal Penning trap, whose force is linear in position and
+    velocity: (a) the collocation solution of u' = A u (A extracted from the problem's own eval_f/build_f) is a fixed point of
+    one sweep, (b) sweeps from the spread guess converge to it"""
+    from pySDC.implementations.problem_classes.PenningTrap_3D import penningtrap
+    from pySDC.implementations.sweeper_classes.boris_2nd_order import boris_2nd_order
+
+    from vf.levelkit import make_step
+    from vf.ref import sdc as ref
+
+    rng = np.random.default_rng(case['seed'])
+    wE = float(rng.uniform(1.0, 6.0))
+    wB = float(rng.uniform(2.2, 6.0)) * wE
+    pp = dict(omega_B=wB, omega_E=wE, u0=np.array([[10, 0, 0], [100, 0, 100], [1], [1]], dtype=object), nparts=1, sig=0.1)
+    M, qt, dt = case['M'], case['qt'], 10 ** case['dtexp'] / wB
+    r.key = f"boris/{qt}/{case['nt']}/{M}/{case['seed'] % 1000}"
+    tag = r.key + f' dt={dt:.3g}'
+    try:
+        gen = ref.coll(M, case['nt'], qt)
+        S = make_step(penningtrap, pp, boris_2nd_order, dict(num_nodes=M, quad_type=qt, node_type=case['nt']), dict(dt=dt))
+    except Exception as e:  # noqa
+        r.count('rejected_at_construction')
+        r.check(True, 'noop', '')
+        return
+    L = S.levels[0]
+    P = L.prob
+    twin = penningtrap(**pp)
+
+    def mk(prob, v):
+        u = prob.dtype_u(prob.init)
+        u.pos[:, 0], u.vel[:, 0] = v[:3], v[3:]
+        u.q[:], u.m[:] = 1.0, 1.0
+        return u
+
+    def F(v, t=0.0):
+        u = mk(twin, v)
+        a = twin.build_f(twin.eval_f(u, t), u, t)
+        return np.concatenate([v[3:], np.asarray(a)[:, 0]])
+
+    with np.errstate(all='ignore'):
+        f0 = F(np.zeros(6))
+        A = np.array([F(e) - f0 for e in np.eye(6)]).T
+        # the trap force must be linear for the dense oracle: probe it
+        probe = rng.standard_normal(6)
+        lin = float(np.max(np.abs(F(probe) - (A @ probe + f0))))
+    r.check(lin <= 1e-9 * (1 + float(np.max(np.abs(A @ probe)))), 'workload-linear', f'{tag}: the trap force is not linear in (x, v): {lin:.3e}')
+    Q, nodes = np.array(gen.Q), np.array(gen.nodes)
+    u0 = rng.standard_normal(6)
+    U = np.linalg.solve(np.eye(6 * M) - dt * np.kron(Q, A), np.tile(u0, M) + dt * np.kron(Q @ np.ones(M), f0)).reshape(M, 6)
+    L.status.time = 0.0
+    L.status.unlocked = True
+
+    def load(vals):
+        L.u[0] = mk(P, u0)
+        L.f[0] = P.eval_f(L.u[0], 0.0)
+        for m in range(M):
+            L.u[m + 1] = mk(P, vals[m])
+            L.f[m + 1] = P.eval_f(L.u[m + 1], dt * nodes[m])
+
+    def read():
+        return np.array([np.concatenate([np.asarray(L.u[m + 1].pos)[:, 0], np.asarray(L.u[m + 1].vel)[:, 0]]) for m in range(M)])
+
+    with np.errstate(all='ignore'):
+        load(U)
+        L.sweep.update_nodes()
+        after = read()
+        sc = max(1.0, float(np.max(np.abs(U))))
+        e = float(np.max(np.abs(after - U)))
+        r.check(e <= 1e-10 * sc, 'update-nodes', f'{tag}: the collocation solution of the (linear) trap equations is not a fixed point of the Boris sweep: it moves by {e:.3e}')
+        # (b) convergence from the spread guess
+        load(np.tile(u0, (M, 1)))
+        errs = []
+        for k in range(case['nsweeps']):
+            L.sweep.update_nodes()
+            errs.append(float(np.max(np.abs(read() - U))))
+    r.check(errs[-1] <= 1e-8 * sc or errs[-1] <= 1e-3 * errs[0], 'boris-sweeps-converge-to-collocation', f'{tag}: errors to the collocation solution over {len(errs)} sweeps: {[f"{x:.1e}" for x in errs[:8]]}')
+    r.nontrivial = True
+    r.observe('family', 'boris')
+    r.sample = dict(case={k: v for k, v in case.items() if not k.startswith('_')}, errors=errs[:6])
+
+
 def run_multistep(case, r):
     """linear multistep sweepers: a constant-step run on a dense linear problem with forcing follows the recurrence
     sum_i alpha_i u_{n-s+1+i} + u_{n+1} = dt * sum_i beta_i f_{n-s+1+i} + dt * beta_s f_{n+1} (start-up steps by the method the class names)"""
@@ -713,6 +797,8 @@ def run_case(case):
             run_sdc(case, r)
         elif case['kind'] == 'rk':
             run_rk(case, r)
+        elif case['kind'] == 'boris':
+            run_boris(case, r)
         elif case['kind'] == 'multistep':
             with np.errstate(all='warn'):
                 run_multistep(case, r)
@@ -742,7 +828,7 @@ def finalize(agg):
     fam = agg['seen'].get('family', set())
     if c.get('oracle:diagonalisation-sweep-solves-collocation', 0) == 0 or c.get('reconfigured_sweeps', 0) == 0:
         out.append('ParaDiag sweepers never reached the solve oracle (or never after a reconfiguration)')
-    for f in FAMILIES + ['verlet', 'paradiag', 'dae_fully', 'dae_semi', 'dae_rk', 'multistep']:
+    for f in FAMILIES + ['verlet', 'paradiag', 'dae_fully', 'dae_semi', 'dae_rk', 'multistep', 'boris']:
         if f not in fam:
             out.append(f'sweeper family {f} never reached the node-value oracle')
     if len(agg['seen'].get('rk_class', ())) < 10:
